@@ -33,6 +33,8 @@ type StreamCfg struct {
 	TypedGarbage bool // descriptors with typed tags and arbitrary bodies (hostile inputs only)
 	MidPCR       bool // PES units whose later packets carry PCRs as well
 	HugePES      bool // one video unit of more than a thousand packets (a large frame)
+	DiscPUSI     bool // some PES units start with discontinuity_indicator set (a splice point)
+	SplitPAT     bool // the PAT may come as two sections listing different programs
 }
 
 // typedTags are the descriptor tags the library has typed decoders for.
@@ -384,6 +386,22 @@ func GenModel(r *core.PRNG, cfg StreamCfg) *refts.Model {
 			u := psiUnit([]string{"PAT"}, nil)
 			u.Sections = u.Sections[:1]
 			fixSingle(r, &u, cfg)
+			if cfg.SplitPAT && len(pat.Programs) >= 2 && u.Sections[0].PAT != nil {
+				// a PAT of two sections (section_number 0 and 1 of 1), each listing part of the programs
+				a, b := u.Sections[0], u.Sections[0]
+				pa, pb := *a.PAT, *a.PAT
+				h := len(pa.Programs) / 2
+				pa.Programs, pb.Programs = pa.Programs[:h:h], pb.Programs[h:]
+				a.PAT, b.PAT = &pa, &pb
+				a.SecNum, a.LastSec, b.SecNum, b.LastSec = 0, 1, 1, 1
+				u.Sections = []refts.Section{a, b}
+				u.AF = nil
+				u.Chunks = []int{1 + u.Pointer + len(a.Encode()) + len(b.Encode())}
+				if u.Chunks[0] > 184 {
+					u.Pointer = 0
+					u.Chunks = []int{1 + len(a.Encode()) + len(b.Encode())}
+				}
+			}
 			s.Units = append(s.Units, u)
 		}
 		m.Streams = append(m.Streams, s)
@@ -438,6 +456,12 @@ func GenModel(r *core.PRNG, cfg StreamCfg) *refts.Model {
 			firstMax := 184
 			if !cfg.NoAF {
 				u.AF = genUnitAF(r)
+				if cfg.DiscPUSI && k > 0 && r.Chance(1, 3) {
+					if u.AF == nil {
+						u.AF = &refts.AF{}
+					}
+					u.AF.Disc = true
+				}
 				if u.AF != nil {
 					firstMax = 184 - u.AF.Size()
 				}
